@@ -37,6 +37,8 @@ var hostileFragments = []string{
 	"%s", "%v", "$min", "$max", "$col", "{0}", ":a",
 	// valid multi-byte text (a check that scans ASCII fast paths may stop looking after it)
 	"é", "名",
+	// the identifier length limit counted in bytes vs characters: 64 bytes in 32 characters, 63 and 66 bytes in 21 / 22
+	strings.Repeat("é", 32), strings.Repeat("名", 21), strings.Repeat("名", 22),
 }
 
 var c02Slots = []string{"eq", "cmp", "lo", "hi", "list", "bare", "field", "dfname"}
@@ -103,7 +105,7 @@ func init() {
 		},
 		Eval:   c02Eval,
 		Shrink: c02Shrink,
-		Rule: "every concatenation of <= 2 (thorough: 3 on field name, equality value, range bound) of 37 hostile fragments (quotes, backslash-quote, ; -- /* */ $$ $1 ? ::int parentheses comma ' OR 1=1' NaN Inf -Infinity 1e999 0x10 E'x' U&'x' NUL 0xff newline 64-byte run) " +
+		Rule: "every concatenation of <= 2 (thorough: 3 on field name, equality value, range bound) of 40 hostile fragments (quotes, backslash-quote, ; -- /* */ $$ $1 ? ::int parentheses comma ' OR 1=1' NaN Inf -Infinity 1e999 0x10 E'x' U&'x' NUL 0xff newline 64-byte run, multi-byte runs of 63 / 64 / 66 bytes) " +
 			"in each of 8 slots (equality / comparison value, range bounds, list element, bare term, field name, default-field name) x 3 lexical forms (quoted, backslash-escaped, raw word) x {inline, parameterised}; plus every accepted member of TOK(Σ_full,N) x {default field or not} x 2 modes; " +
 			"non-trivial = render succeeded; distinct = distinct SQL texts",
 		Assumptions: []string{"PostgreSQL 15 grammar and scanner via pg_query_go with standard_conforming_strings on (the default); analysis-time behaviour (types, collations) is not modelled",
